@@ -598,3 +598,31 @@ def lv_be(acc, s) -> Int:
     if len(s) == 0:
         return acc
     return lv_be(acc * 256 + s[0], s[1:])
+
+
+@uninterpreted
+def int_str(n) -> Str:
+    """str(n) for an int (decimal notation)"""
+    return str(n)
+
+
+@uninterpreted
+def replace_all(s, a, b) -> Str:
+    """s.replace(a, b)"""
+    return s.replace(a, b)
+
+
+@uninterpreted
+def str_upper(s) -> Str:
+    return s.upper()
+
+
+@uninterpreted
+def str_lstrip(s, chars) -> Str:
+    return s.lstrip(chars)
+
+
+def str_repeat(s, n) -> Str:
+    if n <= 0:
+        return ''
+    return str_repeat(s, n - 1) + s
